@@ -105,8 +105,13 @@ class Schedule(drivers.IrcDriver):
         return f
 
     def rescheduleEvent(self, name, t):
+        # The event keeps the arguments it was scheduled with.
+        (args, kwargs) = ([], {})
+        for x in self.schedule:
+            if x[1] == name:
+                (args, kwargs) = (x[2], x[3])
         f = self.removeEvent(name)
-        self.addEvent(f, t, name=name)
+        self.addEvent(f, t, name=name, args=args, kwargs=kwargs)
 
     def makePeriodicWrapper(
             self, f, t, name=None, args=[], kwargs={}, count=None):
